@@ -64,7 +64,22 @@ class Helper:
         self.body = _docless(node.body)
         self.ok = self._eligible()
         self.expr = self.body[0].value if self.ok and len(self.body) == 1 and isinstance(self.body[0], ast.Return) and \
-            self.body[0].value is not None else None
+            self.body[0].value is not None else (self._return_chain(self.body) if self.ok else None)
+
+    @staticmethod
+    def _return_chain(body):
+        """`if c: return A` ; `return B`  (any depth, also if/else of returns)  as the expression  A if c else B"""
+        if len(body) == 1 and isinstance(body[0], ast.Return) and body[0].value is not None:
+            return body[0].value
+        if body and isinstance(body[0], ast.If):
+            a = Helper._return_chain(body[0].body)
+            rest = list(body[0].orelse) if body[0].orelse else body[1:]
+            if body[0].orelse and body[1:]:
+                return None
+            b = Helper._return_chain(rest) if rest else None
+            if a is not None and b is not None:
+                return ast.copy_location(ast.IfExp(test=body[0].test, body=a, orelse=b), body[0])
+        return None
 
     def _eligible(self):
         n = self.node
